@@ -483,7 +483,7 @@ func c13Observe(r *Run, w *World, doubleCheck bool) (string, string) {
 		r.oracleWrites(w, rep, "repair")
 		if rep.Err == nil {
 			rout = "ok"
-			if !w.AllIntact() {
+			if !w.AllIntact() && !w.allIntactOrOlder() {
 				r.Violate("success-not-restored", "PAR1 Repair returned success but %s", w.FirstDamaged())
 			}
 		}
@@ -502,11 +502,30 @@ func c13Observe(r *Run, w *World, doubleCheck bool) (string, string) {
 	r.oracleWrites(w, rep, "repair")
 	if rep.Err == nil {
 		rout = "ok"
-		if !w.AllIntact() {
+		if !w.AllIntact() && !w.allIntactOrOlder() {
 			r.Violate("success-not-restored", "Repair returned success but %s", w.FirstDamaged())
 		}
 	}
 	return vout, rout
+}
+
+// allIntactOrOlder: every protected file holds its bytes or those of the
+// older generation of the set (worlds with OlderGen only).
+func (w *World) allIntactOrOlder() bool {
+	if len(w.OlderGen) == 0 {
+		return false
+	}
+	for i := range w.Files {
+		if w.Intact(i) {
+			continue
+		}
+		cur, ok := w.Disk.Get(w.Path(i))
+		older, has := w.OlderGen[w.Path(i)]
+		if !ok || !has || string(cur) != string(older) {
+			return false
+		}
+	}
+	return true
 }
 
 // c13Random: seeded structure-aware faults on a random set.
@@ -560,6 +579,10 @@ func c13Random(r *Run) {
 				d[t.Draw(len(d), "old-byte")] ^= 0x33
 			}
 			w.Disk.Put(w.Path(i), d)
+			if w.OlderGen == nil {
+				w.OlderGen = map[string][]byte{}
+			}
+			w.OlderGen[w.Path(i)] = d
 		}
 		old.R = 1 + t.Draw(5, "old-R")
 		var oc *OpResult
